@@ -300,9 +300,9 @@ type limits struct {
 
 func limitsOf(tier string) limits {
 	if tier == "thorough" {
-		return limits{full: 60 * time.Second, short: 250 * time.Millisecond}
+		return limits{full: 60 * time.Second, short: 120 * time.Millisecond}
 	}
-	return limits{full: 20 * time.Second, short: 250 * time.Millisecond}
+	return limits{full: 20 * time.Second, short: 120 * time.Millisecond}
 }
 
 // drive sends one request to the child and follows it until the group is done or a case fails.
